@@ -15,8 +15,31 @@ Definition v_guid (g : guid) : val := VL [vN (gA g); vN (gB g); vN (gC g); vN (g
 Definition n16 : list val := [VN 16%Z].
 Definition zN (z : Z) : N := Z.to_N z.
 
+(* a history of operations on ONE UUIDv1 value: the state is (variant, time, clock sequence, node) - the struct
+   has no other state the operations may consult.  ops: [0; bytes] Unmarshal (valid inputs only), [1; t] Time = t,
+   [2; cs] SetClockSequence, [3; node] SetNodeID, [4] Marshal.  Outputs: one value per Unmarshal and per Marshal. *)
+Fixpoint v1_run (st : N * N * N * list N) (ops : list val) : list val :=
+  match ops with
+  | [] => []
+  | VL [VN 0%Z; VB b] :: r =>
+      match v1_unmarshal b with
+      | Ok st' => v_v1 [] st' :: v1_run st' r
+      | Err => VErr :: v1_run st r
+      | Panic => [VPanic]
+      end
+  | VL [VN 1%Z; VN t] :: r => let '(var, _, cs, node) := st in v1_run (var, Z.to_N t, cs, node) r
+  | VL [VN 2%Z; VN c] :: r => let '(var, time, _, node) := st in v1_run (var, time, Z.to_N c, node) r
+  | VL [VN 3%Z; VB n] :: r =>
+      let '(var, time, cs, node) := st in
+      v1_run (var, time, cs, match set_node n with Ok n' => n' | _ => node end) r
+  | VL [VN 4%Z] :: r => let '(var, time, cs, node) := st in VB (v1_marshal var time cs node) :: v1_run st r
+  | _ :: r => v1_run st r
+  end.
+
 Definition dispatch_C13 (f : string) (args : list val) : val :=
   match args with
+  | [VL ops] =>
+      if f =? "v1.ops" then VL (v1_run (0, 0, 0, [0; 0; 0; 0; 0; 0]%N) ops) else vunknown
   | [VB b] =>
       if f =? "uuid.unmarshal" then r_val v_uuid_n (uuid_unmarshal b)
       else if f =? "uuid.from_string" then r_val v_uuid (uuid_from_string b)
